@@ -49,7 +49,7 @@ RULE = ("case = seeded regime: custom parameters (2..4 annotators, counts, gaps,
         ">= 500 generated units, or in which an adversarial draw hit the zero-count or redraw branch")
 ASSUMPTIONS = [
     "z-tests with |z| <= 7; standard deviations within 7/sqrt(2N) relative; count mean within [mu-1, mu+0.5] (truncation vs rounding)",
-    "laws are only judged in regimes with (mu_gap + mu_dur) >= 8*sqrt(s_gap^2 + s_dur^2), mu_dur >= 6 s_dur, mu_n >= 3 s_n + 1",
+    "laws are only judged in regimes with (mu_gap + mu_dur) >= 6*sqrt(s_gap^2 + s_dur^2), mu_dur >= 6 s_dur, mu_n >= 3 s_n + 1",
     "measured regimes: target band spans plain estimators and the library's variant",
 ]
 COMPONENTS = {"real": ["pygamma_agreement.sampler.StatisticalContinuumSampler", "Continuum", "numpy RandomState (record mode)"],
@@ -96,14 +96,15 @@ def gen(ch, tier):
     else:
         # regular reference continuum
         ann = []
-        gap = ch.uniform(2.0, 8.0)
         dur = ch.uniform(1.0, 6.0)
+        # a third of the references have consecutive units of one annotator overlapping (negative gaps)
+        gap = ch.uniform(2.0, 8.0) if ch.coin(0.65) else ch.uniform(-0.35, 0.3) * dur
         raw = [ch.uniform(0.3, 3.0) for _ in range(ncat)]
         for nm in names:
             t = 0.0
             units = []
             for _ in range(ch.randint(5, 10)):
-                t += ch.uniform(gap * 0.9, gap * 1.1)
+                t += ch.uniform(gap - 0.1 * abs(gap) - 0.05 * dur, gap + 0.1 * abs(gap) + 0.05 * dur)
                 d = ch.uniform(dur * 0.9, dur * 1.1)
                 units.append([world.r3(t), world.r3(t + d), ch.weighted(list(zip(cats, raw)))])
                 t = units[-1][1]
